@@ -280,6 +280,7 @@ def judge (_case impl : String) : String :=
   let w := (words impl)
   match w with
   | ["terminates-normally", _] => "ok"
+  | ["terminates-normally"] => "ok"
   | "abnormal" :: k :: _ => s!"bad {k} {impl}"
   | _ => if impl.startsWith "crash" || impl == "hang" then s!"bad harness-{impl}" else s!"bad malformed {impl}"
 
